@@ -66,6 +66,9 @@ def plan(tier, seed):
 # (a) ordering
 
 
+_SKEWED = None
+
+
 class Order:
     def __init__(self, ctx, db):
         self.ctx = ctx
@@ -137,6 +140,18 @@ class Order:
         cls, rel = case["cls"], case["rel"]
         a = self.make(cls, case["x"], case["u"], case["ca"], case.get("frac"))
         b = self.make(cls, y, case["v"], case["cb"])
+        if case.get("derived_elsewhere"):
+            # the operands are re-made from themselves (a copy with the same value, a product with 1) while a project
+            # database is the current one: they stay objects of their own database and order as before
+            global _SKEWED
+            if _SKEWED is None:
+                _SKEWED = env.skewed_db()
+            with env.pushed(_SKEWED):
+                if case["derived_elsewhere"] == 1:
+                    a, b = a.CreateCopy(value=a.GetValue()), b.CreateCopy(value=b.GetValue())
+                else:
+                    a, b = a * 1.0, b * 1.0
+            ctx.cls("operands_remade_under_another_current_database")
         res = {}
         for op in OPS:
             want_ab, want_ba = EXPECT[rel][op]
@@ -206,6 +221,8 @@ class Order:
                         base = {"qt": qt, "u": u, "v": v, "ca": ca, "cb": cb, "x": x, "rel": rel}
                         self.check(dict(base, cls="Scalar"))
                         self.check(dict(base, cls="FractionScalar"))
+                        if (j + k) % 4 == 0 and rel != "equal":
+                            self.check(dict(base, cls="Scalar", derived_elsewhere=1 + (j % 2)))
                         if scale_only and rel != "equal" and fracs:
                             f = fracs[(k + j) % len(fracs)]
                             self.check(dict(base, cls="FractionScalar", frac=list(f), x=float(math.floor(x)) if abs(x) < 1e12 else x))
